@@ -59,17 +59,29 @@ Theorem C01_roundtrip :
                 /\ roundtrip_ok pyval pyeq v_int np_dtype hdr dt rows out.
 Proof. exact roundtrip. Qed.
 
-(* The premise [user_hdr_ok] marks the edge of the statement and cannot be dropped: the user key
-   _Delim is not one of the names _make_header strips ([reserved] = false), every other premise
-   holds, and the reader (case-insensitive _match_key) takes the file for a text file. *)
+(* What is left of the premise [user_hdr_ok] — a user key spelling _dtype otherwise than _DTYPE —
+   cannot be dropped from the abstract theorem: H_pf does not fix the ORDER of the evaluated dict and
+   the reader takes the first key that lower-cases to _dtype (the real code is safe: pformat sorts,
+   _DTYPE sorts first; the harness generates such keys and the checker judges the real code on them). *)
 Theorem C01_roundtrip_needs_user_hdr_ok :
-  H_pf (list byte) eq bad_pformat bad_pyeval ex_np_dtype bad_head ex_dt
+  H_pf (list byte) eq bad_pformat bad_pyeval bad_np_dtype bad_head ex_dt
   /\ ~ user_hdr_ok (list byte) bad_hdr
   /\ ex_rows <> [] /\ rows_fit ex_dt ex_rows /\ 0 < rowsize ex_dt
-  /\ reserved (B "_Delim") = false
-  /\ sfile_read (list byte) ex_vstr dec ex_np_dtype bad_pyeval
-       (sfile_write (list byte) ex_vstr ex_vdescr bad_pformat bad_hdr ex_dt ex_rows) = Err EOther.
+  /\ reserved (B "_dtype") = false
+  /\ sfile_read (list byte) ex_vstr dec bad_np_dtype bad_pyeval
+       (sfile_write (list byte) ex_vstr ex_vdescr bad_pformat bad_hdr ex_dt ex_rows) = Err EType.
 Proof. exact roundtrip_needs_user_hdr_ok. Qed.
+
+(* _make_header as found (only all-lower / all-upper spellings removed) let a user key _Delim
+   through: the binary file was then taken for a text file.  The repaired one (any spelling) strips
+   it, keeps the other keys, and the table comes back (defect C01-mixed-case-reserved-key, /repo 04e3f20). *)
+Theorem C01_unrepaired_make_header_refuted :
+  user_hdr_ok (list byte) mc_hdr
+  /\ dget (list byte) (B "_Delim") (make_header_v0 mc_hdr) = Some (B "','")
+  /\ sfile_read (list byte) ex_vstr dec ex_np_dtype mc_pyeval_v0 (sfile_file w_text_field ex_rows) = Err EOther
+  /\ dget (list byte) (B "_Delim") mc_head = None /\ dget (list byte) (B "keep") mc_head = Some (B "1")
+  /\ exists h, sfile_read (list byte) ex_vstr dec ex_np_dtype mc_pyeval (sfile_file w_text_field ex_rows) = Ok (ex_dt, ex_rows, h).
+Proof. exact unrepaired_make_header_refuted. Qed.
 
 (* _make_header keeps every user key other than the reserved names, with its value. *)
 Theorem C01_user_keys_kept :
@@ -204,11 +216,18 @@ Proof. exact roundtrip_every_entry_point. Qed.
    The constants of the model are the constants of the source. *)
 Theorem C01_gen_consts :
   gen_sfile_version = sfile_version
-  /\ gen_deleted_keys = deleted_keys
+  /\ gen_reserved = reserved_lower
   /\ gen_scan_pat = pat /\ gen_scan_incr = blank_extra
   /\ gen_update_prefix = gen_size_prefix /\ gen_update_width = gen_size_width
   /\ forall n, size_line n = gen_size_prefix ++ pad_left gen_size_width (dec n).
 Proof. exact gen_consts. Qed.
+
+(* The model's _make_header is the translation, statement by statement, of SFile._make_header
+   (reserved list, case-insensitive deletion loop, order of the _DTYPE / _VERSION entries). *)
+Theorem C01_gen_make_header : forall (pyval : Type) (v_str : list byte -> pyval) (v_descr : dtype -> pyval)
+                                     (hdr : hdict pyval) (dt : dtype),
+  gen_make_header pyval v_str v_descr hdr dt = make_header pyval v_str v_descr hdr dt.
+Proof. exact gen_make_header_eq. Qed.
 
 (* The model's low-level read is the composition of the translated integer functions
    (_count_nrows, Records::process_nrows, _get_slice_nrows, Records::process_slice) with the fread. *)
